@@ -53,7 +53,7 @@ TARGETS = {
     "meshmc_tet": ([("meshmc/meshmc_main.cc", "-DKERNEL_TET")], False, ["asan", "fast"]),
     "meshmc_hex": ([("meshmc/meshmc_main.cc", "-DKERNEL_HEX")], False, ["asan", "fast"]),
     "regmc": ([("regmc/regmc_main.cc", "")], False, ["asan"]),
-    "ovmio": ([("ovmio/ovmio_main.cc", "")], True, ["asan", "fast"]),
+    "ovmio": ([("ovmio/ovmio_main.cc", ""), ("ovmio/ovmio_lib.cc", "")], True, ["asan", "fast"]),
     "vecmc": ([("vecmc/vecmc_main.cc", "")], False, ["asan", "fast"]),
     "handlemc": ([("vecmc/handlemc_main.cc", "")], False, ["fast"]),
     "thrmc_sched": ([("thrmc/thrmc_main.cc", "-DTHRMC_SCHED"), ("thrmc/sched.cc", "NOINSTR")], False, ["sched"]),
